@@ -12,7 +12,7 @@ WITNESSES = {'all': ['not-succeeds', 'not-fails', 'node-level', 'parsed-not', 'h
 OPTS = {'quick': {'selfcheck_mod': 60, 'budget_s': 280}, 'thorough': {'selfcheck_mod': 600, 'budget_s': 3000}}
 STEP_LIMIT = 1_500_000
 BOUNDS = {
-    'quick': 'G in {p($X), q($X), q(a), r($X, $Y), (p($X), q($X)), (q($X) ; r($X, $Y)), $X = b, $X = $Y, $X == b, $X < 3, eq($X, c), a call of an undefined predicate, G whose first goal first succeeds without a binding and then with one, G that call facts made of `$_` only, and four G that bind a variable and then fail}; not(G) placed first, in the middle and last in '
+    'quick': 'G in {p($X), q($X), q(a), r($X, $Y), (p($X), q($X)), (q($X) ; r($X, $Y)), $X = b, $X = $Y, $X == b, $X < 3, eq($X, c), a call of an undefined predicate, G whose first goal first succeeds without a binding and then with one, G that call facts made of `$_` only, and four G that bind a variable and then fail}; not(not(G)) and not(not(not(G))) for 5 G, alone and followed by a goal that binds the same variable; not(G) placed first, in the middle and last in '
              'conjunctions of up to 3 goals with backtracking neighbours p($X), q($X), r($X, $Y), and in one disjunction shape; 24 bodies in which a successful not(...) is followed by calls of facts that have variables of their own; answers compared with the reference; at node level: '
              'a Not node is built for each G under substitutions that bind $X to a, b, c or nothing, asked three times: at most one success, the returned substitution set equals the input, '
              'and success iff the reference finds no answer for G; `not(p($X))` also through parse_subgoal',
@@ -46,6 +46,10 @@ def cases(tier, seed):
                 add(AND(a, n, b)); add(AND(n, a, b)); add(AND(a, b, n))
         if tier != 'quick':
             add(NOT(n)); add(OR(AND(n, NB[0]), AND(NB[1], n)))
+    # nested not: not(not(G)) succeeds iff G has an answer, and still leaves no binding behind
+    for g in (gc('p', X), U(X, I(1)), gc('r', X, Y), AND(gc('p', X), gc('q', X)), gc('nosuch', X)):
+        nn = NOT(NOT(g))
+        add(nn); add(AND(nn, U(X, A('b')))); add(AND(nn, gc('q', X))); add(AND(gc('p', X), nn)); add(NOT(nn)); add(AND(NOT(nn), U(X, A('c'))))
     # after a successful not(...): goals that fetch clauses with variables of their own, and variables that are still unbound
     W = V('W')
     for n in (NOT(gc('q', I(1))), NOT(gc('nosuch', X)), NOT(AND(U(Y, I(1)), gb('fail')))):
